@@ -66,6 +66,7 @@ class FakeS3:
         self.history = {}  # key -> [(step, body|None)]  (every applied write / delete)
         self.req_log = []  # (step, op, key, actor)
         self.times = {}  # (key, step) -> server clock (ms) of every applied change
+        self.skew_ms = 0  # server clock = client (world) clock + skew_ms; may be symbolic; LastModified is SERVER time
 
     def _pt(self, label, key):
         if SYM_MARK in key:
@@ -97,11 +98,11 @@ class FakeS3:
             raise cerr("PreconditionFailed", "PutObject", 412)
         before = self.o[Key][1] if Key in self.o else None
         self.ver += 1
-        self.o[Key] = (Body, self.ver, Instant(self.world.clock.peek()))
+        self.o[Key] = (Body, self.ver, Instant(self.world.clock.peek() + self.skew_ms))
         from vf.rigs.world import actor
         self.put_log.append((self.world.step, Key, actor(), before, self.ver))
         self.history.setdefault(Key, []).append((self.world.step, Body))
-        self.times[(Key, self.world.step)] = self.world.clock.peek()
+        self.times[(Key, self.world.step)] = self.world.clock.peek() + self.skew_ms
         r = {"ETag": self._et(Key)}
         self._pt("put<", Key)
         return r
@@ -132,7 +133,7 @@ class FakeS3:
         self._pt("del>", Key)
         if Key in self.o:
             self.history.setdefault(Key, []).append((self.world.step, None))
-            self.times[(Key, self.world.step)] = self.world.clock.peek()
+            self.times[(Key, self.world.step)] = self.world.clock.peek() + self.skew_ms
         self.o.pop(Key, None)
         self._pt("del<", Key)
         return {}
